@@ -40,6 +40,8 @@ KEYS = {
   'time':  {'budget': (['C08'], [])},
   'go':    {'res': (['C07'], []), 'sp': (['C07'], []), 'msgs': (['C07'], [])},
   'prep':  {'tokens': (['C07'], [])},
+  'search': {'out': (['C04', 'C05', 'C13'], [])},
+  'judge': {'bestlegal': ([], ['C04']), 'pvlegal': ([], ['C04']), 'bestfirst': ([], ['C04']), 'mateok': ([], ['C13'])},
 }
 ASSERT = {
   'gen':  {'p.c17': ['C17'], 'p.shape': ['C10']},
@@ -53,9 +55,10 @@ ASSERT = {
   'order': {'p.perm': ['C19'], 'p.sorted': ['C19']},
   'time': {'p.ltclock': ['C08'], 'p.ltmovetime': ['C08'], 'p.indep': ['C08']},
   'go':   {'p.total': ['C07']},
+  'facts': {'p.terminated': ['C05'], 'p.depthok': ['C05'], 'p.stopnow': ['C05'], 'p.nopanic': ['C04', 'C05']},
 }
 # operations whose answers are compared even outside the legal-position domain
-ALWAYS = {'fen', 'att', 'magic', 'tt', 'time', 'go', 'prep'}
+ALWAYS = {'fen', 'att', 'magic', 'tt', 'time', 'go', 'prep', 'search', 'facts'}
 
 
 def sh(cmd, cwd=None, env=None, timeout=None, stdin=None):
